@@ -72,6 +72,27 @@ def sym_gram(ops, rng, oblique=False, maxentry=4000):
     raise RuntimeError("no gram matrix found")
 
 
+def oblique_gram(rng, rhombohedral=False):
+    """Strongly oblique integer Gram matrices (angles roughly 35-118 degrees) for P1/P-1, or the
+    one-parameter rhombohedral family (R-centred groups on rhombohedral axes)."""
+    for _ in range(500):
+        if rhombohedral:
+            g = rng.choice([20, 30, 51, 60])
+            c = rng.choice([-0.42, -0.39, -0.3, 0.5, 0.7, 0.8])
+            o = int(round(g * c))
+            gram = [[g, o, o], [o, g, o], [o, o, g]]
+        else:
+            d = [rng.randint(8, 40) for _ in range(3)]
+            cs = [rng.choice([-0.45, -0.35, -0.2, 0.3, 0.5, 0.7, 0.8]) for _ in range(3)]
+            o01 = int(round(cs[0] * math.sqrt(d[0] * d[1])))
+            o02 = int(round(cs[1] * math.sqrt(d[0] * d[2])))
+            o12 = int(round(cs[2] * math.sqrt(d[1] * d[2])))
+            gram = [[d[0], o01, o02], [o01, d[1], o12], [o02, o12, d[2]]]
+        if positive_definite(gram) and _det3(gram) * 6 > gram[0][0] * gram[1][1] * gram[2][2] * 0.3:
+            return gram
+    raise RuntimeError("no oblique gram")
+
+
 def cell_params(gram, u):
     """(lengths in Angstrom, angles in radians) of the cell with Gram matrix gram * u^2."""
     a, b, c = (math.sqrt(gram[i][i]) * u for i in range(3))
